@@ -5,6 +5,7 @@ PYTHONHASHSEED influences a pure-Python program only through (1) the iteration o
 source* under the package name `htmltools_nd` through an AST rewrite that turns
 
     set(...) / frozenset(...) / {a, b} / {x for ...}   ->  NDSet(...)      (iteration order chosen by the run's choice integers)
+    a - b, a | b, a & b, a ^ b                         ->  nd_binop(...)   (an NDSet when an operand is a set or a dict view, e.g. d.keys() - {k})
     hash(x)                                            ->  nd_hash(x)      (value of a str chosen by the run's choice integers)
 
 A harness runs a scenario twice with two different choice vectors (solver variables) and requires identical output.
@@ -114,6 +115,30 @@ class NDSet:
     __hash__ = None  # type: ignore[assignment]
 
 
+_SETLIKE = (set, frozenset, type({}.keys()), type({}.items()))
+
+
+def nd_binop(op: str, a, b):
+    """a - b, a | b, a & b, a ^ b: when either operand is a set, a frozenset, an NDSet or a dict view the result is a set
+    in CPython (seed-dependent iteration order), so the model returns an NDSet; every other operand type is untouched."""
+    if isinstance(a, _SETLIKE + (NDSet,)) or isinstance(b, _SETLIKE + (NDSet,)):
+        la, lb = list(a), list(b)
+        if op == "-":
+            return NDSet([x for x in la if x not in lb])
+        if op == "|":
+            return NDSet(la + lb)
+        if op == "&":
+            return NDSet([x for x in la if x in lb])
+        return NDSet([x for x in la if x not in lb] + [x for x in lb if x not in la])
+    if op == "-":
+        return a - b
+    if op == "|":
+        return a | b
+    if op == "&":
+        return a & b
+    return a ^ b
+
+
 def nd_hash(x):
     if isinstance(x, (str, bytes)):
         r = CURRENT[0]
@@ -143,6 +168,14 @@ class _Rewrite(ast.NodeTransformer):
             self.count += 1
             return ast.copy_location(ast.Call(func=self._nd("nd_hash"), args=node.args, keywords=node.keywords), node)
         return node
+
+    def visit_BinOp(self, node: ast.BinOp):
+        self.generic_visit(node)
+        ops = {ast.Sub: "-", ast.BitOr: "|", ast.BitAnd: "&", ast.BitXor: "^"}
+        sym = ops.get(type(node.op))
+        if sym is None:
+            return node
+        return ast.copy_location(ast.Call(func=self._nd("nd_binop"), args=[ast.Constant(sym), node.left, node.right], keywords=[]), node)
 
     def visit_Set(self, node: ast.Set):
         self.generic_visit(node)
